@@ -196,7 +196,7 @@ Proof. intros H. unfold overwrite. apply map_ext_in. intros [n v] Hin. cbn [fst]
   rewrite (H n); [reflexivity|]. apply in_map_iff. exists (n, v). split; [reflexivity | exact Hin]. Qed.
 
 Lemma inputs_into_agree G ids inp1 inp2 acc : agree (input_names G ids) inp1 inp2 -> inputs_into G ids inp1 acc = inputs_into G ids inp2 acc.
-Proof. intros H. unfold inputs_into. apply fold_left_ext_in. intros a nm Hin. unfold getv. rewrite (H nm Hin). reflexivity. Qed.
+Proof. intros H. unfold inputs_into. apply fold_left_ext_in. intros a nm Hin. unfold input_value, getv. rewrite (H nm Hin). reflexivity. Qed.
 
 Section Closure.
 Variables (fixed : bool) (G : graph) (id : N) (CL : list N).
@@ -379,9 +379,9 @@ Proof. unfold overwrite. induction self as [|[k v] r IH]; [reflexivity|]. cbn [m
   - apply N.eqb_eq in E2. subst k. rewrite E. reflexivity. Qed.
 
 Lemma lookup_inputs_into G ids inp n :
-  lookup n (inputs_into G ids inp []) = if mem n (input_names G ids) then Some (getv n inp) else None.
+  lookup n (inputs_into G ids inp []) = if mem n (input_names G ids) then Some (input_value n inp) else None.
 Proof. unfold inputs_into. generalize (input_names G ids). intros l.
-  assert (H : forall acc, lookup n (fold_left (fun a nm => set nm (getv nm inp) a) l acc) = if mem n l then Some (getv n inp) else lookup n acc).
+  assert (H : forall acc, lookup n (fold_left (fun a nm => set nm (input_value nm inp) a) l acc) = if mem n l then Some (input_value n inp) else lookup n acc).
   { induction l as [|x r IH]; intros acc; [reflexivity|]. cbn [fold_left]. rewrite IH. unfold mem. cbn [existsb].
     fold (mem n r). destruct (mem n r); [rewrite orb_true_r; reflexivity|]. rewrite orb_false_r, lookup_set.
     destruct (N.eqb n x) eqn:E; [apply N.eqb_eq in E; subst; reflexivity | reflexivity]. }
@@ -482,7 +482,7 @@ Theorem decision_sees fixed G order rk rd ri inp n : topo_ok G order = true ->
   lookup n (zip (inputs_into G ri inp []) (overwrite kd inp)) =
   match (match lookup n (rev (dec_binds G step rd inp)) with Some v => Some v | None => lookup n (knowledge_ctx G step rk inp) end) with
   | Some v => Some (match lookup n inp with Some v' => v' | None => v end)      (* a required decision's own value / a function value, unless the input context binds the name *)
-  | None => if mem n (input_names G ri) then Some (getv n inp) else None        (* a required input: the supplied value; anything else: unbound *)
+  | None => if mem n (input_names G ri) then Some (input_value n inp) else None (* a required input: the supplied (number) value; anything else: unbound *)
   end.
 Proof. intros HT step kd.
   assert (Hkd : NoDup (map fst (overwrite kd inp))).
